@@ -87,7 +87,10 @@ def run(prog, tier):
         h = R.sym("self.h")
         N = R.sym("size(self.sample)")
         # the displacement query point - kept sample, recovered from the atoms of the summand (independent of temporaries)
-        res_key = "pdf[g]" if what == "pdf" else "cdf[g]"
+        # the per-group store into the result array: `<result>[<group>] = <summed kernels>` inside the region loop
+        st_keys = [U(s_.targets[0]) for s_ in ast.walk(loop[0]) if isinstance(s_, ast.Assign) and isinstance(s_.targets[0], ast.Subscript)
+                   and isinstance(s_.targets[0].value, ast.Name)]
+        res_key = st_keys[0] if len(st_keys) == 1 else ("pdf[g]" if what == "pdf" else "cdf[g]")
         gotv = env.get(res_key)
         syms = {a for a in gotv.all_atoms() if a[0] == "sym"} if isinstance(gotv, R) else set()
         xa = [a for a in syms if a[1].startswith("x[") or a[1] == "x"]
@@ -97,7 +100,7 @@ def run(prog, tier):
         dx = R.atom(xa[0]) - R.atom(sa_[0])
         is_arr = lambda a: a[0] == "sym" and a[1].startswith("self.sample")
         if what == "pdf":
-            got = env.get("pdf[g]")
+            got = env.get(res_key)
             norm = guard(lambda: ex.self_attr("norm", {}))
             # len(self.sample) and self.sample.size name the same count
             norm = anf.subst(norm, {a: N for a in norm.all_atoms() if a[0] == "sym" and a[1].startswith("size(")})
@@ -110,7 +113,7 @@ def run(prog, tier):
                 o = struct_ob("kernel-form", qual(ci, fn), False, "the kernel sums are not multiplied by self.norm exactly once", REL, fn.lineno)
             obs.append(o)
         else:
-            got = env.get("cdf[g]")
+            got = env.get(res_key)
             off = R.sym("self.cdf_offsets")          # indexed by the region of the query point (loop index erased)
             want = anf.sum_((1 + anf.erf_(dx / (anf.sqrt_(R.const(2)) * h))) / (2 * N), is_arr, R.sym("n_kept"), "ax1") + off
             obs.append(formula_ob("kernel-form", qual(ci, fn), got, want, REL, fn.lineno,
@@ -243,7 +246,8 @@ def run(prog, tier):
     src = {U(s.targets[0]): s.value for s in ast.walk(init) if isinstance(s, ast.Assign) and len(s.targets) == 1}
     ok, why = False, ""
     try:
-        cutoff = ex.eval(src["self.cutoff"], {})
+        cut_st = [s_ for s_ in ast.walk(init) if isinstance(s_, ast.Assign) and len(s_.targets) == 1 and U(s_.targets[0]) == "self.cutoff"]
+        cutoff = ex.eval(rz.term(cut_st[0].value, cut_st[0]) if len(cut_st) == 1 else src["self.cutoff"], {})
         c = anf.proportional(cutoff, R.sym("self.h"))
         if n_layers_text is None:
             raise KeyError("number of tree layers (2**n + 1 edges) not identified")
